@@ -312,6 +312,13 @@ func (c *FnCtx) equalSV(a, b SV, t types.Type) (Term, bool) {
 	case If:
 		switch y := b.(type) {
 		case If:
+			// comparison with the nil interface: the type tag decides (tag 0 <=> nil)
+			if y.Tag.S == "0" && y.ID.S == "0" {
+				return Eq(x.Tag, IntLit(0)), true
+			}
+			if x.Tag.S == "0" && x.ID.S == "0" {
+				return Eq(y.Tag, IntLit(0)), true
+			}
 			return And(Eq(x.Tag, y.Tag), Eq(x.ID, y.ID)), true
 		case Sc:
 			return Eq(x.Tag, IntLit(0)), true
